@@ -42,6 +42,42 @@ StepBound == \A P \in PSet : \A cp \in Slots(P) :                            \* 
 \* a decoder in sync with the encoder sits exactly at the encoder's state (C07)
 InSync == LET d == DecAfter(Sealed(e), hist) IN d.lower = e.lower /\ d.range = e.range
 
+\* Bridge to theorem CarryStep of spec/proofs/RangeCarry.tla (TLAPS: the encoder with held-back words emits the digits of the
+\* arbitrary-precision reference, for all widths and message lengths).  In every reachable state and for every slot the numeric
+\* quantities of the theorem are what Range.tla computes: V = value of bulk, Q = B^(sitN - 1), Acc = value of bulk \o held words,
+\* and the successor state (V2, n2, w2, l2, r2) is REnc's.
+NumAcc(V, n, w, Q, B) == IF n = 0 THEN V ELSE V * (Q * B) + w * Q + (Q - 1)
+CarryBridge == \A P \in PSet : \A cp \in Slots(P) :
+    LET B == Pow2(W)
+        T == Pow2(K)
+        V == WordsToNat(e.bulk, W)
+        n == e.sitN
+        w == e.sitW
+        Q == IF n = 0 THEN 1 ELSE B^(n - 1)
+        scale == Shr(e.range, P)
+        d == scale * cp[1]
+        r1 == scale * cp[2]
+        nl == (e.lower + d) % M
+        carry == e.lower + d >= M
+        resolves == n > 0 /\ nl + r1 < M
+        A == NumAcc(V, n, w, Q, B)
+        V1 == IF resolves THEN (IF carry THEN A + 1 ELSE A) ELSE V
+        n1 == IF resolves THEN 0 ELSE n
+        renorm == r1 < T
+        lw == nl \div T
+        l2 == IF renorm THEN (nl * B) % M ELSE nl
+        r2 == IF renorm THEN r1 * B ELSE r1
+        normalAfter == l2 + r2 < M
+        V2 == IF renorm /\ n1 = 0 /\ normalAfter THEN V1 * B + lw ELSE V1
+        n2 == IF ~renorm THEN n1 ELSE IF n1 > 0 THEN n1 + 1 ELSE IF normalAfter THEN 0 ELSE 1
+        w2 == IF renorm /\ n1 = 0 /\ ~normalAfter THEN lw ELSE w
+        x == REnc(e, P, cp[1], cp[2])
+    IN /\ M = T * B /\ e.lower < M /\ e.range < M /\ r1 >= 1 /\ d + r1 <= e.range /\ (n = 0 => e.lower + e.range <= M)   \* hypotheses
+       /\ WordsToNat(e.bulk \o HeldNoCarry(e), W) = A                       \* Acc is the value of the words incl. the held-back ones
+       /\ (n > 0 => WordsToNat(e.bulk \o HeldCarry(e), W) = A + 1)          \* a carry adds one to it
+       /\ ref.tl = A * M + e.lower                                          \* RefAgree, as the theorem states it
+       /\ x.lower = l2 /\ x.range = r2 /\ x.sitN = n2 /\ (n2 > 0 => x.sitW = w2) /\ WordsToNat(x.bulk, W) = V2
+       /\ RefEnc(ref, P, cp[1], cp[2]).tl = (IF renorm THEN (ref.tl + d) * B ELSE ref.tl + d)
 RECURSIVE EncAfter(_)
 EncAfter(h) == IF h = <<>> THEN EncNew ELSE REnc(EncAfter(Front(h)), Last(h)[1], Last(h)[2], Last(h)[3])
 RECURSIVE DecStates(_, _)
